@@ -638,6 +638,13 @@ Definition addr_key (s : bytes) : bytes :=
 
 (** aggregate GenesisState.Validate (HEAD: contract duplicates keyed by address, every denomination
     checked, empty list rejected; [old]: keyed by spelling, only Denoms[0], indexed before any length check). *)
+(** the inner loop over one pair's denominations: [None] = duplicate, else the extended seen-set *)
+Fixpoint denoms_fresh (ds seen : list bytes) : option (list bytes) :=
+  match ds with
+  | [] => Some seen
+  | d :: ds' => if mem d seen then None else denoms_fresh ds' (d :: seen)
+  end.
+
 Fixpoint ga_validate_pairs (old : bool) (l : list ga_pair) (seen_erc20 seen_denom : list bytes) : outcome unit :=
   match l with
   | [] => Ok tt
@@ -656,14 +663,13 @@ Fixpoint ga_validate_pairs (old : bool) (l : list ga_pair) (seen_erc20 seen_deno
         match gp_denoms p with
         | [] => Err
         | _ =>
-            (fix go (ds : list bytes) (seen : list bytes) : outcome unit :=
-               match ds with
-               | [] =>
-                   if negb (forallb valid_denom (gp_denoms p)) then Err
-                   else if negb (is_hex_address (gp_erc20 p)) then Err
-                   else ga_validate_pairs old t (addr_key (gp_erc20 p) :: seen_erc20) seen
-               | d :: ds' => if mem d seen then Err else go ds' (d :: seen)
-               end) (gp_denoms p) seen_denom
+            match denoms_fresh (gp_denoms p) seen_denom with
+            | None => Err
+            | Some seen =>
+                if negb (forallb valid_denom (gp_denoms p)) then Err
+                else if negb (is_hex_address (gp_erc20 p)) then Err
+                else ga_validate_pairs old t (addr_key (gp_erc20 p) :: seen_erc20) seen
+            end
         end
   end.
 
